@@ -158,7 +158,8 @@ def run_stack(c):
     d = c["d"]
     coords = [arr(v) for v in c["coords"]]
     t = c["t"]
-    parts = [make_res(p["k"], d, p["polys"]).jet_lift(lift_by=p["lift_by"]) for p in c["parts"]]
+    parts = [make_res(p["k"], d, p["polys"]) if p["lift_by"] is None else make_res(p["k"], d, p["polys"]).jet_lift(lift_by=p["lift_by"])
+             for p in c["parts"]]
     st = pdq.residual_from_stack(*parts)
     res = {"k_stack": int(st.num_tcoeffs_in_args)}
 
